@@ -119,3 +119,453 @@ def step(line):
         return 'BAD-OP'
     except Exception as e:  # noqa
         return err(e)
+
+
+# ------------------------------------------------------------------------------------------------
+# sentence layer
+# ------------------------------------------------------------------------------------------------
+import io
+from decimal import Decimal as _D
+from fractions import Fraction
+
+import importlib
+
+K = importlib.import_module('pyais.constants')
+ST = importlib.import_module('pyais.stream')
+Q = importlib.import_module('pyais.queue')
+DEC = importlib.import_module('pyais.decode')      # `pyais.decode` the attribute is the function
+ENC = importlib.import_module('pyais.encode')
+TR = importlib.import_module('pyais.tracker')
+FL = importlib.import_module('pyais.filter')
+
+
+def hx(b):
+    if isinstance(b, str):
+        b = b.encode('latin-1', 'replace')
+    return bytes(b).hex() if len(b) else '-'
+
+
+def unhx(s):
+    return b'' if s == '-' else bytes.fromhex(s)
+
+
+def show_gh(g):
+    t = g.timestamp
+    return '%s/%s/%s/%s/%s/%d' % (hx(g.raw), ','.join(str(x) for x in (t.year, t.month, t.day, t.hour, t.minute,
+                                                                      t.second, t.microsecond)),
+                                  hx(g.country), hx(g.region), hx(g.pss), g.online_data)
+
+
+def show_sentence(s):
+    parts = ['raw=' + hx(s.raw), 'ais=%d' % (1 if s.TYPE == 'AIS' else 0), 'delim=' + hx(s.delimiter),
+             'talker=' + hx(s.talker_id), 'typ=' + hx(s.type), 'chk=%d' % s.checksum, 'fill=%d' % s.fill_bits,
+             'valid=%d' % (1 if s.is_valid else 0), 'df=' + ','.join(hx(f) for f in s.data_fields),
+             'tb=' + ('N' if s.tag_block is None else hx(s.tag_block.raw)),
+             'w=' + ('N' if s.wrapper_msg is None else show_gh(s.wrapper_msg))]
+    if s.TYPE == 'AIS':
+        parts.append('fc=%d fn=%d seq=%s ch=%s pl=%s bits=%s id=%d' % (
+            s.frag_cnt, s.frag_num, 'N' if s.seq_id is None else str(s.seq_id), hx(s.channel), hx(s.payload),
+            show_bits(s.bit_array), s.ais_id))
+    else:
+        parts.append('gh=' + show_gh(s))
+    return ' '.join(parts)
+
+
+class _IdxTbq(ST.TagBlockQueue):
+    """TagBlockQueue that remembers at which input position each list was put"""
+
+    def __init__(self, counter):
+        super().__init__()
+        self._counter = counter
+        self.log = []
+        self.first_raw = {}      # id(sentence) -> raw bytes when the sentence entered the queue
+        self.keep = []           # keeps the objects alive so that ids stay unique
+
+    def put_sentence(self, sentence):
+        # assemble_from_iterable later mutates fragment objects in place (aliasing); sentences are
+        # identified by the raw line they were parsed from
+        if id(sentence) not in self.first_raw:
+            self.first_raw[id(sentence)] = bytes(sentence.raw)
+            self.keep.append(sentence)
+        super().put_sentence(sentence)
+
+    def _put(self, item):
+        self.log.append((self._counter[0] - 1, [self.first_raw.get(id(s), bytes(s.raw)) for s in item]))
+        super()._put(item)
+
+
+class _FakeSock:
+    def __init__(self, chunks):
+        self.chunks = list(chunks)
+
+    def recv(self, n):
+        return self.chunks.pop(0) if self.chunks else b''
+
+    def recvfrom(self, n):
+        return (self.recv(n), None)
+
+    def close(self):
+        pass
+
+
+def _emit(events, crash):
+    # events: list of (index, kind, text) ; order per index: delivered first, then tbq lists
+    events.sort(key=lambda e: (e[0], 0 if e[1] == 'D' else 1))
+    out = ['%s%d:[%s]' % (k, i, t) for i, k, t in events]
+    if crash:
+        out.append('CRASH:' + crash)
+    return ' ; '.join(out) if out else '-'
+
+
+def run_stream(fe, tbq, lines, indexed=True):
+    counter = [0]
+
+    def gen():
+        for l in lines:
+            counter[0] += 1
+            yield l
+
+    q = _IdxTbq(counter) if tbq else None
+    events, crash = [], None
+    try:
+        if fe == 'queue':
+            nq = Q.NMEAQueue(tbq=q)
+            for l in gen():
+                nq.put_line(l)
+                while True:
+                    m = nq.get_or_none()
+                    if m is None:
+                        break
+                    events.append((counter[0] - 1, 'D', show_sentence(m)))
+        else:
+            if fe == 'iter':
+                it = ST.IterMessages(gen(), tbq=q)
+            elif fe == 'bytestream':
+                it = ST.ByteStream(gen(), tbq=q)
+            else:
+                raise ValueError(fe)
+            for m in it:
+                events.append((counter[0] - 1, 'D', show_sentence(m)))
+    except Exception as e:  # noqa
+        crash = err(e)[4:]
+    if q is not None:
+        for i, item in q.log:
+            events.append((i, 'T', '|'.join(hx(r) for r in item)))
+    if not indexed:
+        events = [(0, k, t) for _, k, t in events]
+    return _emit(events, crash)
+
+
+def run_unindexed(make_stream, tbq):
+    counter = [1]
+    q = _IdxTbq(counter) if tbq else None
+    events, crash = [], None
+    try:
+        for m in make_stream(q):
+            events.append((0, 'D', show_sentence(m)))
+            if q is not None:
+                # attribute tbq lists put so far *before* this delivery … the model orders per line;
+                # without indices we only compare the two sequences separately (see _emit)
+                pass
+    except Exception as e:  # noqa
+        crash = err(e)[4:]
+    if q is not None:
+        for _, item in q.log:
+            events.append((0, 'T', '|'.join(hx(r) for r in item)))
+    return _emit(events, crash)
+
+
+def make_socket_stream(chunks, q):
+    s = ST.SocketStream.__new__(ST.SocketStream)
+    ST.Stream.__init__(s, _FakeSock(chunks), tbq=q)
+    return s
+
+
+def sock_read(chunks):
+    s = make_socket_stream(chunks, None)
+    return list(s.read())
+
+
+def show_tb(tb):
+    g = tb.group
+    def o(v):
+        return 'N' if v is None else hx(v.encode('utf-8'))
+    return ' '.join(['valid=%d' % (1 if tb.is_valid else 0), 'actual=%d' % tb.actual_checksum,
+                     'expected=%d' % tb.expected_checksum, 'c=' + o(tb.receiver_timestamp),
+                     'd=' + o(tb.destination_station), 'n=' + o(tb.line_count), 'r=' + o(tb.relative_time),
+                     's=' + o(tb.source_station), 't=' + o(tb.text),
+                     'g=' + ('N' if g is None else '%d-%d-%d' % (g.sentence_num, g.sentence_tot, g.group_id))])
+
+
+def run_tbq(lines):
+    q = ST.TagBlockQueue()
+    out = []
+    for i, l in enumerate(lines):
+        try:
+            s = M.NMEASentenceFactory.produce(l)
+            q.put_sentence(s)
+        except Exception as e:  # noqa
+            out.append('T%d:%s' % (i, err(e)))
+            continue
+        while not q.empty():
+            item = q.get_nowait()
+            out.append('T%d:[%s]' % (i, '|'.join(hx(s.raw) for s in item)))
+    return ' ; '.join(out) if out else '-'
+
+
+# ------------------------------------------------------------------------------------------------
+# kwargs / values
+# ------------------------------------------------------------------------------------------------
+
+def parse_val(s):
+    if s == 'N':
+        return None
+    p = s.split(':')
+    if p[0] == 'i':
+        return int(p[1])
+    if p[0] == 'b':
+        return p[1] == '1'
+    if p[0] == 'f':
+        return float(_D(int(p[1])) / 1000000)
+    if p[0] == 's':
+        return unhx(p[1] or '-').decode('latin-1')
+    if p[0] == 'y':
+        return unhx(p[1] or '-')
+    if p[0] == 'e':
+        cls = getattr(K, p[1])
+        return cls(float(p[2])) if issubclass(cls, float) else cls(int(p[2]))
+    raise ValueError(s)
+
+
+def parse_kw(s):
+    if s == '-':
+        return {}
+    d = {}
+    for kv in s.split(';'):
+        k, v = kv.split('=')
+        d[k] = parse_val(v)
+    return d
+
+
+def show_kw(d):
+    return ';'.join('%s=%s' % (k, canon_val(v)) for k, v in d.items()) or '-'
+
+
+# ------------------------------------------------------------------------------------------------
+# tracker
+# ------------------------------------------------------------------------------------------------
+
+class _Clock:
+    def __init__(self):
+        self.t = 0.0
+
+    def time(self):
+        return self.t
+
+
+CLOCK = _Clock()
+TR.time = CLOCK       # `now()` looks up the module global `time` at call time
+
+TRACK_ATTRS = [f.name for f in TR.FIELDS if f.name not in ('mmsi', 'last_updated')]
+
+
+def show_time(x):
+    d = _D(repr(float(x)))
+    return str(int(d)) if d == d.to_integral_value() else 't?%r' % x
+
+
+def show_track(t):
+    attrs = ','.join('%s=%s' % (n, canon_val(getattr(t, n))) for n in TRACK_ATTRS if getattr(t, n) is not None)
+    return '%d@%s(%s)' % (t.mmsi, show_time(t.last_updated), attrs)
+
+
+def run_tracker(ordered, ttl, ops):
+    tr = TR.AISTracker(ttl_in_seconds=ttl, stream_is_ordered=ordered)
+    evs = []
+    tr.register_callback(TR.AISTrackEvent.CREATED, lambda t: evs.append(('C', t.mmsi)))
+    tr.register_callback(TR.AISTrackEvent.UPDATED, lambda t: evs.append(('U', t.mmsi)))
+    tr.register_callback(TR.AISTrackEvent.DELETED, lambda t: evs.append(('D', t.mmsi)))
+    CLOCK.t = 0.0
+    out = []
+
+    def take():
+        others = ['%s%d' % e for e in evs if e[0] != 'D']
+        dels = ['D%d' % m for m in sorted(m for k, m in evs if k == 'D')]
+        del evs[:]
+        return ','.join(others + dels)
+
+    def state():
+        return '{' + ' '.join(show_track(t) for t in tr.tracks) + '}'
+
+    for op in ops:
+        p = op.split(':')
+        if p[0] == 't':
+            CLOCK.t = float(p[1])
+        elif p[0] == 'l':
+            tr.ttl_in_seconds = None if p[1] == 'N' else int(p[1])
+        elif p[0] == 'c':
+            tr.cleanup()
+            out.append('c[%s] %s' % (take(), state()))
+        elif p[0] == 'p':
+            t = tr.pop_track(int(p[1]))
+            out.append('p[%s]%s %s' % (take(), 'N' if t is None else show_track(t), state()))
+        elif p[0] == 'n':
+            out.append('n[%s] %s' % (' '.join(str(t.mmsi) for t in tr.n_latest_tracks(int(p[1]))), state()))
+        elif p[0] == 'u':
+            try:
+                s = DEC._assemble_messages(unhx(p[1]))
+            except Exception as e:  # noqa
+                out.append('u%s %s' % (err(e), state()))
+                continue
+            try:
+                tr.update(s, None if p[2] == 'N' else float(p[2]))
+                out.append('u+[%s] %s' % (take(), state()))
+            except ValueError:
+                out.append('u-[%s] %s' % (take(), state()))
+            except Exception as e:  # noqa
+                out.append('u%s %s' % (err(e), state()))
+        else:
+            out.append('BAD-OP')
+    return ' ; '.join(out)
+
+
+# ------------------------------------------------------------------------------------------------
+# filters
+# ------------------------------------------------------------------------------------------------
+
+def make_pred(spec):
+    if spec[0] == 'always':
+        return lambda m: True
+    if spec[0] == 'never':
+        return lambda m: False
+    if spec[0] == 'has':
+        return lambda m: hasattr(m, spec[1])
+    if spec[0] == 'lt':
+        bound = _D(int(spec[2])) / 1000000
+
+        def lt(m):
+            v = getattr(m, spec[1], None)
+            if v is None or isinstance(v, (str, bytes)):
+                return False
+            return _D(repr(float(v))) < bound
+        return lt
+    if spec[0] == 'eq':
+        want = ':'.join(spec[2:])
+        return lambda m: hasattr(m, spec[1]) and canon_val(getattr(m, spec[1])) == want
+    raise ValueError(spec)
+
+
+def make_filter(s):
+    p = s.split(':')
+    if p[0] == 'A':
+        return FL.AttributeFilter(make_pred(p[1:]))
+    if p[0] == 'N':
+        return FL.NoneFilter(*([] if p[1] == '-' else p[1].split(',')))
+    if p[0] == 'T':
+        return FL.MessageTypeFilter(*([] if p[1] == '-' else [int(x) for x in p[1].split(',')]))
+    if p[0] == 'D':
+        return FL.DistanceFilter((float(_D(int(p[1])) / 1000000), float(_D(int(p[2])) / 1000000)),
+                                 float(_D(int(p[3])) / 1000000000))
+    if p[0] == 'G':
+        return FL.GridFilter(*[float(_D(int(x)) / 1000000) for x in p[1:5]])
+    raise ValueError(s)
+
+
+class _Wrap:
+    """a stream element whose decode() returns a tagged decoded message"""
+
+    def __init__(self, idx, line):
+        self.idx, self.line = idx, line
+
+    def decode(self):
+        m = pyais.decode(self.line)
+        IDX[id(m)] = self.idx
+        KEEP.append(m)
+        return m
+
+
+IDX, KEEP = {}, []
+
+
+def run_chain(fspec, lines):
+    IDX.clear()
+    del KEEP[:]
+    filters = [make_filter(s) for s in fspec.split('+')]
+    chain = FL.FilterChain(filters)
+    elems = []
+    for i, l in enumerate(lines):
+        try:
+            pyais.decode(l)
+        except Exception:  # noqa  (undecodable lines are not part of the input of the chain)
+            continue
+        elems.append(_Wrap(i, l))
+    out = [IDX[id(m)] for m in chain.filter(elems)]
+    return '[' + ','.join(str(i) for i in out) + ']'
+
+
+def step2(line):
+    p = line.split()
+    cmd = p[0]
+    if cmd == 'parse':
+        return show_sentence(M.NMEASentenceFactory.produce(unhx(p[1])))
+    if cmd == 'decode':
+        return canon_msg(pyais.decode(*[unhx(x) for x in p[2:]], error_if_checksum_invalid=(p[1] == '1')))
+    if cmd == 'assemble':
+        return show_sentence(DEC._assemble_messages(*[unhx(x) for x in p[2:]], error_if_checksum_invalid=(p[1] == '1')))
+    if cmd == 'stream':
+        return run_stream(p[1], p[2] == '1', [unhx(x) for x in p[3:]])
+    if cmd == 'file':
+        content = unhx(p[2])
+        return run_unindexed(lambda q: ST.BinaryIOStream(io.BytesIO(content), tbq=q), p[1] == '1')
+    if cmd == 'socket':
+        chunks = [unhx(x) for x in p[2:]]
+        return run_unindexed(lambda q: make_socket_stream(chunks, q), p[1] == '1')
+    if cmd == 'sock':
+        return '[' + ','.join(hx(l) for l in sock_read([unhx(x) for x in p[1:]])) + ']'
+    if cmd == 'tbq':
+        return run_tbq([unhx(x) for x in p[1:]])
+    if cmd == 'tagblock.parse':
+        tb = M.TagBlock(unhx(p[1]))
+        tb.init()
+        return show_tb(tb)
+    if cmd == 'tagblock.create':
+        fields = {}
+        if p[1] != '-':
+            for kv in p[1].split(';'):
+                k, v = kv.split('=')
+                fields[k] = None if v == 'N' else unhx(v).decode('utf-8')
+        return hx(M.TagBlock.create(**fields))
+    if cmd == 'create':
+        return canon_msg(getattr(M, p[1]).create(**parse_kw(p[2])))
+    if cmd == 'tobits':
+        return show_bits(getattr(M, p[1]).create(**parse_kw(p[2])).to_bitarray())
+    if cmd == 'encode_dict':
+        r = ENC.encode_dict(parse_kw(p[3]), talker_id=unhx(p[1]).decode('latin-1'),
+                            radio_channel=unhx(p[2]).decode('latin-1'))
+        return ','.join(hx(s.encode('latin-1')) for s in r)
+    if cmd == 'encode_msg':
+        m = getattr(M, p[1]).create(**parse_kw(p[4]))
+        r = ENC.encode_msg(m, talker_id=unhx(p[2]).decode('latin-1'), radio_channel=unhx(p[3]).decode('latin-1'))
+        return ','.join(hx(s.encode('latin-1')) for s in r)
+    if cmd == 'nmea':
+        r = ENC.ais_to_nmea_0183(unhx(p[1]).decode('latin-1'), unhx(p[2]).decode('latin-1'),
+                                 unhx(p[3]).decode('latin-1'), int(p[4]))
+        return ','.join(hx(s.encode('latin-1')) for s in r) if r else '-'
+    if cmd == 'tracker':
+        return run_tracker(p[1] == '1', None if p[2] == 'N' else int(p[2]), p[3:])
+    if cmd == 'chain':
+        return run_chain(p[1], [unhx(x) for x in p[3:]])
+    return None
+
+
+_step1 = step
+
+
+def step(line):  # noqa: F811
+    try:
+        r = step2(line)
+        if r is not None:
+            return r
+    except Exception as e:  # noqa
+        return err(e)
+    return _step1(line)
